@@ -2,6 +2,7 @@ package main
 
 import (
 	"fmt"
+	"strings"
 	"go/token"
 	"go/types"
 
@@ -18,27 +19,70 @@ type builderShape struct {
 	eqIdx    []ssa.Value // results #0 of calculateReuseIndexFor calls
 	reuseIdx []ssa.Value // results #1
 	idxCall  map[ssa.Value]*ssa.Call
+	idxKey   map[ssa.Value]string // "call/role": several loads of the same struct field are one index
 	removed  map[ssa.Value]ssa.Instruction // index value -> the append(old[:i], old[i+1:]...) that removes it
 	gens     []*ssa.Call                   // generator invocations (dynamic calls of a 2-parameter function value)
 	result   []*ssa.Call                   // appends of a single element to the result list
 }
 
 func analyseBuilder(f *ssa.Function) *builderShape {
-	bs := &builderShape{f: f, idxCall: map[ssa.Value]*ssa.Call{}, removed: map[ssa.Value]ssa.Instruction{}}
+	bs := &builderShape{f: f, idxCall: map[ssa.Value]*ssa.Call{}, idxKey: map[ssa.Value]string{}, removed: map[ssa.Value]ssa.Instruction{}}
 	for _, p := range f.Params {
 		if _, ok := p.Type().Underlying().(*types.Slice); ok {
 			bs.oldP = p // last slice parameter = old controllers
 		}
 	}
+	isCalc := func(v ssa.Value) *ssa.Call {
+		call, ok := v.(*ssa.Call)
+		if ok && call.Call.StaticCallee() != nil && call.Call.StaticCallee().Name() == "calculateReuseIndexFor" {
+			return call
+		}
+		return nil
+	}
+	// the index pair may come back as two results or as a small struct (equal index first / named *equal*, statistic
+	// index second / named *stat* or *reuse*)
+	addIdx := func(v ssa.Value, call *ssa.Call, pos int, name string) {
+		role := pos
+		ln := strings.ToLower(name)
+		switch {
+		case strings.Contains(ln, "equal"):
+			role = 0
+		case strings.Contains(ln, "stat"), strings.Contains(ln, "reuse"):
+			role = 1
+		}
+		bs.idxCall[v] = call
+		bs.idxKey[v] = fmt.Sprintf("%p/%d", call, role)
+		if role == 0 {
+			bs.eqIdx = append(bs.eqIdx, v)
+		} else if role == 1 {
+			bs.reuseIdx = append(bs.reuseIdx, v)
+		}
+	}
 	eachInstr(f, func(ins ssa.Instruction) {
 		switch x := ins.(type) {
 		case *ssa.Extract:
-			if call, ok := x.Tuple.(*ssa.Call); ok && call.Call.StaticCallee() != nil && call.Call.StaticCallee().Name() == "calculateReuseIndexFor" {
-				bs.idxCall[x] = call
-				if x.Index == 0 {
-					bs.eqIdx = append(bs.eqIdx, x)
-				} else if x.Index == 1 {
-					bs.reuseIdx = append(bs.reuseIdx, x)
+			if call := isCalc(x.Tuple); call != nil {
+				addIdx(x, call, x.Index, "")
+			}
+		case *ssa.Field:
+			if call := isCalc(x.X); call != nil {
+				addIdx(x, call, x.Field, fieldNameV(x.X.Type(), x.Field))
+			} else if ld, ok := x.X.(*ssa.UnOp); ok && ld.Op == token.MUL {
+				if al, ok := ld.X.(*ssa.Alloc); ok {
+					if call := isCalc(allocSingleStore(al)); call != nil {
+						addIdx(x, call, x.Field, fieldNameV(x.X.Type(), x.Field))
+					}
+				}
+			}
+		case *ssa.UnOp:
+			// ri := calculateReuseIndexFor(...); ... ri.equal ...
+			if x.Op == token.MUL {
+				if fa, ok := x.X.(*ssa.FieldAddr); ok {
+					if al, ok := fa.X.(*ssa.Alloc); ok {
+						if call := isCalc(allocSingleStore(al)); call != nil {
+							addIdx(x, call, fa.Field, fieldName(fa.X.Type(), fa.Field))
+						}
+					}
 				}
 			}
 		case *ssa.Call:
@@ -73,6 +117,15 @@ func analyseBuilder(f *ssa.Function) *builderShape {
 	return bs
 }
 
+// same: a and b are one and the same index value (identical, or two reads of the same field of one result).
+func (bs *builderShape) same(a, b ssa.Value) bool {
+	if a == b {
+		return true
+	}
+	ka, kb := bs.idxKey[a], bs.idxKey[b]
+	return ka != "" && ka == kb
+}
+
 func (bs *builderShape) nonNeg(b *ssa.BasicBlock, v ssa.Value) bool {
 	for _, ft := range condFacts(b) {
 		bo, ok := ft.Cond.(*ssa.BinOp)
@@ -80,7 +133,7 @@ func (bs *builderShape) nonNeg(b *ssa.BasicBlock, v ssa.Value) bool {
 			continue
 		}
 		z, isZ := constInt(bo.Y)
-		if bo.X == v && isZ && z == 0 && ((bo.Op == token.GEQ && ft.Truth) || (bo.Op == token.LSS && !ft.Truth)) {
+		if bs.same(bo.X, v) && isZ && z == 0 && ((bo.Op == token.GEQ && ft.Truth) || (bo.Op == token.LSS && !ft.Truth)) {
 			return true
 		}
 	}
@@ -125,7 +178,7 @@ func (bs *builderShape) derivesFromIndex(v ssa.Value, idx ssa.Value, d int) bool
 	case *ssa.UnOp:
 		return bs.derivesFromIndex(t.X, idx, d+1)
 	case *ssa.IndexAddr:
-		return t.Index == idx && bs.fromOld(t.X)
+		return bs.same(t.Index, idx) && bs.fromOld(t.X)
 	case *ssa.FieldAddr:
 		return bs.derivesFromIndex(t.X, idx, d+1)
 	case *ssa.Call:
@@ -243,7 +296,7 @@ func (bs *builderShape) donorOf(g *ssa.Call) (ri ssa.Value, proper bool, hasNil 
 			// taken under reuseStatIdx >= 0: dominating fact of the case's block, or the fact of the edge it came through
 			guarded := bs.nonNeg(cs.block, r)
 			for _, ft := range cs.extra {
-				if bo, ok := ft.Cond.(*ssa.BinOp); ok && bo.X == r {
+				if bo, ok := ft.Cond.(*ssa.BinOp); ok && bs.same(bo.X, r) {
 					if z, isZ := constInt(bo.Y); isZ && z == 0 && ((bo.Op == token.GEQ && ft.Truth) || (bo.Op == token.LSS && !ft.Truth)) {
 						guarded = true
 					}
@@ -265,11 +318,11 @@ func (bs *builderShape) donorOf(g *ssa.Call) (ri ssa.Value, proper bool, hasNil 
 // result variable (phi of the index and the constant -1).
 func (bs *builderShape) removedFor(idx ssa.Value) bool {
 	for hi := range bs.removed {
-		if hi == idx {
+		if bs.same(hi, idx) {
 			return true
 		}
 		for _, cs := range splitPhiCases(hi, nil, nil, 0) {
-			if cs.val == idx {
+			if bs.same(cs.val, idx) {
 				return true
 			}
 		}
